@@ -34,6 +34,13 @@ PROGRAMS = [
 		'pkg_b': 'from pkg_a import Base, E\n\nclass D(Base):\n\tdef both(self, other: Base) -> tuple[E, E]:\n\t\treturn (self.kind(), other.kind())\n\ndef f(ds: list[D]) -> dict[str, E]:\n\tout: dict[str, E] = {}\n\tfor d in ds:\n\t\tout["a"] = d.kind()\n\treturn out\n',
 		'pkg_c': 'from pkg_a import E\nfrom pkg_b import D, f\n\ndef g() -> E:\n\tr = f([D()])\n\treturn r["a"]\n',
 	},
+	{
+		# imported module-level variables whose types have arguments (annotated and inferred), directly and through a re-exporting
+		# module; a function that mentions a generic class declared later through string annotations
+		'pkg_a': 'DEFAULTS: dict[str, list[int]] = {}\nNAMES = [\'x\', \'y\']\nLIMIT = 3\n',
+		'pkg_b': 'from pkg_a import DEFAULTS, NAMES\n\ndef width() -> int:\n\treturn len(NAMES) + len(DEFAULTS)\n',
+		'pkg_c': 'from typing import Generic, TypeVar\nfrom pkg_a import LIMIT\nfrom pkg_b import DEFAULTS, NAMES, width\n\ndef make() -> \'Box[int]\':\n\treturn Box[int](LIMIT)\n\ndef nested() -> \'dict[str, Box[Later]]\':\n\treturn {}\n\nT = TypeVar(\'T\')\n\nclass Box(Generic[T]):\n\tv: T\n\n\tdef __init__(self, v: T) -> None:\n\t\tself.v = v\n\nclass Later:\n\tn: int = 0\n\ndef use() -> int:\n\tfirst = NAMES[0]\n\trow = DEFAULTS[first]\n\treturn row[0] + width() + make().v\n',
+	},
 ]
 
 
